@@ -259,6 +259,15 @@ class Decompiler(object):
                 decompiler.abs_jump_to_top = decompiler.pos
 
             if before_yield:
+                prev = decompiler.instructions[-1] if decompiler.instructions else None
+                if (opname.startswith('POP_JUMP_IF_') and arg[0] == i
+                        or opname == 'JUMP_FORWARD' and prev and 'JUMP_IF' in prev[2] and prev[3] == [i]):
+                    # py 3.12 folds a constant operand of and/or/not/if-else away and leaves a test whose two
+                    # branches continue at the same place (`if x or 1`) or an if-else without a body
+                    # (`if (1 if x else y)`); the jump analysis cannot tell them from real conditions and would
+                    # silently return a different expression
+                    throw(DecompileError('Condition with a constant operand cannot be decompiled, '
+                                         'try to pass query as string, e.g. select("x for x in Something")'))
                 merge = False
                 if opname == 'JUMP_BACKWARD':
                     # in py 3.12 we have jump_if_true forward for yield
